@@ -187,10 +187,13 @@ class Scheduler(Subject):
         """
 
         if event in self.awaited_events:
+            # the event is not awaited any more while it is delivered: a callback may report it again
+            index = self.awaited_events.index(event)
+            del self.awaited_events[index]
             if self.petri_net_logic.fire_event(event):
-                self.awaited_events.remove(event)
                 self.notify(NotificationType.PETRI_NET, self.scheduler_uuid)
                 return True
+            self.awaited_events.insert(index, event)
         return False
 
     def register_callback_task_started(self, callback: Callable[[TaskAPI], Any]) -> bool:
